@@ -19,6 +19,14 @@ def oracle(case):
         return 'hook execution order %s is not a prefix of the configured order %s' % (hooks, expect)
     if case['archived'] is not None and hooks != expect:
         return 'published run skipped hooks: %s vs %s' % (hooks, expect)
+    # the bracket holds whatever happens in between (a failing `before`, an error or a fatal failure while the item is
+    # read): once an item's `before` hook has run, its `after` hook runs too
+    for i, m in enumerate(case['items']):
+        if 'before%d' % i in hooks and m['after'] != 'absent' and 'after%d' % i not in hooks:
+            return 'the `before` hook of item %d ran but its `after` hook did not (hooks executed: %s)' % (i, hooks)
+    # nothing fatal was injected: every item is reached, whatever hooks or items failed before it
+    if not case['faults'] and hooks != expect:
+        return 'hooks of later items were skipped although nothing fatal happened: %s vs %s' % (hooks, expect)
     if case['archived'] is not None:
         arch = {p for k, p in case['archived']}
         for i, m in enumerate(case['items']):
